@@ -172,6 +172,7 @@ class Interp:
         self.nq = 0; self.steps = 0; self.solver_s = 0.0; self.nforks = 0
         self.constcache = {}
         self._implcache = {}; self._rescache = {}; self._arrcache = {}; self._fresh = 0
+        self._litcache = {}; self._adtcache = {}; self._dispatch = {}
         self.models = {}             # canon key -> handler(it, callee, args)
         self.model_hits = {}
         self.trait_models = {}       # (trait, method) -> handler
@@ -392,9 +393,13 @@ class Interp:
 
     # ---- constants
     def const(self, t):
+        lc = self._litcache.get(t)
+        if lc is not None:
+            return IntV(lc[0], lc[1], lc[2])
         m = re.match(r'^(-?\d+)_([iu](?:8|16|32|64|128|size))$', t)
         if m:
             bits, sg = INTW[m.group(2)]
+            self._litcache[t] = (int(m.group(1)) % (1 << bits), bits, sg)
             return IntV(int(m.group(1)) % (1 << bits), bits, sg)
         if t == 'true':
             return BoolV(True)
@@ -720,6 +725,25 @@ class Interp:
         raise Unsupported('discriminant: %s has no variant %s' % (v.name, v.variant))
 
     def make_adt(self, path, form, fields, destty):
+        ck = (path, form, destty if form == 'unit' and '::' not in path else None)
+        hit = self._adtcache.get(ck)
+        if hit is not None:
+            if hit[0] == 'cenum' and not fields:
+                return IntV(hit[1], hit[2], 0)
+            if hit[0] == 'enum':
+                return Agg('enum', hit[1], hit[2], fields)
+            if hit[0] == 'struct':
+                return Agg('struct', hit[1], None, fields)
+        r = self._make_adt(path, form, fields, destty)
+        if isinstance(r, IntV) and not fields:
+            self._adtcache[ck] = ('cenum', r.v, r.bits)
+        elif isinstance(r, Agg) and r.kind == 'enum':
+            self._adtcache[ck] = ('enum', r.name, r.variant)
+        elif isinstance(r, Agg) and r.kind == 'struct':
+            self._adtcache[ck] = ('struct', r.name)
+        return r
+
+    def _make_adt(self, path, form, fields, destty):
         segs = path.split('::')
         last = segs[-1]
         if len(segs) >= 2:
@@ -833,22 +857,39 @@ class Interp:
     def call(self, callee, args):
         for h in self.call_hooks:
             h(self, callee, args)
-        key = canon_callee(callee)
-        h = self.models.get(key)
-        if h is not None:
+        d = self._dispatch.get(callee)
+        if d is None:
+            key = canon_callee(callee)
+            cands = []
+            h = self.models.get(key)
+            if h is not None:
+                cands.append((key, h))
+            m = re.match(r'^<(.*) as ([\w:]+)(?:<.*>)?>::(\w+)$', key)
+            if m:
+                h = self.trait_models.get((m.group(2), m.group(3)))
+                if h is not None:
+                    cands.append(('<_ as %s>::%s' % (m.group(2), m.group(3)), h))
+            d = (key, cands, len(self.models))
+            self._dispatch[callee] = d
+        elif d[2] != len(self.models):
+            # models were (un)registered by a spec since this entry was cached
+            del self._dispatch[callee]
+            return self.call(callee, args)
+        key, cands, _ = d
+        for k2, h in cands:
+            if k2 == key and self.models.get(key) is not h:
+                h = self.models.get(key)
+                if h is None:
+                    continue
             r = h(self, callee, args)
+            if r is not NotImplemented:
+                self.model_hits[k2] = self.model_hits.get(k2, 0) + 1
+                return r
+        if key in self.models and not any(k2 == key for k2, _ in cands):
+            r = self.models[key](self, callee, args)
             if r is not NotImplemented:
                 self.model_hits[key] = self.model_hits.get(key, 0) + 1
                 return r
-        m = re.match(r'^<(.*) as ([\w:]+)(?:<.*>)?>::(\w+)$', key)
-        if m:
-            h = self.trait_models.get((m.group(2), m.group(3)))
-            if h is not None:
-                r = h(self, callee, args)
-                if r is not NotImplemented:
-                    k2 = '<_ as %s>::%s' % (m.group(2), m.group(3))
-                    self.model_hits[k2] = self.model_hits.get(k2, 0) + 1
-                    return r
         fb = self.resolve(callee, len(args))
         if fb is not None and (self.allow is None or any(re.search(a, fb.name) for a in self.allow)):
             return self.run_body(fb, args)
